@@ -105,10 +105,28 @@ func (rl *TokenBucketRateLimiter) cleanupRoutine() {
 	}
 }
 
+// bucketMaxAge returns how long a bucket must be idle before it can be forgotten:
+// at least 1 hour, and at least the time it takes to refill completely. Dropping a
+// bucket any earlier would hand the client a fresh full burst ahead of schedule.
+func (rl *TokenBucketRateLimiter) bucketMaxAge() time.Duration {
+	maxAge := time.Hour
+	if rl.maxTokens > 0 && rl.refillRate > 0 {
+		full := time.Duration(rl.maxTokens) * rl.refillRate
+		if full/time.Duration(rl.maxTokens) != rl.refillRate {
+			return time.Duration(1<<63 - 1) // overflow: never forget
+		}
+		if full > maxAge {
+			maxAge = full
+		}
+	}
+	return maxAge
+}
+
 // cleanup removes buckets that haven't been used for more than 1 hour
+// (or longer, if a full refill takes longer than that)
 func (rl *TokenBucketRateLimiter) cleanup() {
 	now := time.Now()
-	cutoff := now.Add(-time.Hour)
+	cutoff := now.Add(-rl.bucketMaxAge())
 
 	// Use sync.Map's Range method for iteration
 	rl.buckets.Range(func(key, value interface{}) bool {
